@@ -221,6 +221,11 @@ HOpen(n)    == HOpenT(n, NCols)
 HRead(h, q) == [h EXCEPT !.nreads = @ + 1]              \* nothing a later read could see - whether the
                                                         \* call was served or rejected, after any history
 HClose(h)   == [h EXCEPT !.open = FALSE]
+\* Object lifetime.  A selection object (h[columns]) the caller keeps stands for the stored table as the
+\* handle does: what the caller does with its NAMES of the handle - it was a temporary, a local of a helper
+\* that returned the selection, deleted, collected by the garbage collector ("derive", "drop", "collect") -
+\* is a stutter step on everything a later read through a held object can see.  Only close() ends it.
+HLife(h, a) == IF a = "close" THEN HClose(h) ELSE h
 HFailing(h, q, o) == IF h.open THEN FailingT(h.n, h.nc, q, o) ELSE {"closed"}
 
 \* =====================================================================================
